@@ -298,7 +298,7 @@ let eval_case emit (c : ecfg) (prog : int list) (answers : answer list) =
                     c_init = Option.map n_of_z c.init;
                     c_cap_stack = (if c.small then Some (nat_of_int 3) else None);
                     c_cap_expr = (if c.small then Some (nat_of_int 1) else None);
-                    c_cap_res = (if c.small then Some (nat_of_int 2) else None) } in
+                    c_cap_res = (if c.small then Some (nat_of_int 2) else None); c_canon = None } in
   let fuel = nat_of_int (match c.maxit with Some m -> m + 2 | None -> 4000) in
   let case = Printf.sprintf "c07.eval %s %s %s %s %s %s%s" (enc_toks c.e)
       (sopt string_of_int c.maxit) (sopt Z.to_string c.init) (sopt Z.to_string c.obj) (if c.small then "s" else "h")
@@ -561,9 +561,35 @@ let spec_value_cvt emit (name : string) (sz : int) (a : value) (t : vtype) =
 let spec_eval_witness emit (e : encd) (p : int list) (p' : int list) =
   let c = { e; maxit = Some 40; init = None; obj = None; small = false } in
   let cfg : cfg = { c_enc = enc_of c.e; c_obj = None; c_max = Some (n_of_int 40); c_init = None;
-                    c_cap_stack = None; c_cap_expr = None; c_cap_res = None } in
+                    c_cap_stack = None; c_cap_expr = None; c_cap_res = None; c_canon = None } in
   let case = Printf.sprintf "c07.spec e k %s 40 - - h %s" (enc_toks e) (hex_of_ints p) in
   both emit case (fun dbg -> show_trace ~canon_bits:(8 * e.asz) (run the_fops (nat_of_int 42) dbg cfg (bytes_of_ints p') []))
+
+(* evaluator level: gimli (generic values printed modulo the address size) against the NORMALISED machine
+   (model with c_canon = Some (8*asz): every generic value reduced when pushed).  Class k: the program or an
+   answer expression contains a shift opcode byte and the faithful model differs from the normalised machine. *)
+let has_shift_byte l = List.exists (fun b -> b = 0x24 || b = 0x25 || b = 0x26) l
+let spec_eval_case emit (c : ecfg) (prog : int list) (answers : answer list) =
+  if c.e.asz >= 1 && c.e.asz <= 8 then begin
+    let bits = 8 * c.e.asz in
+    let mk canon : cfg = { c_enc = enc_of c.e; c_obj = Option.map n_of_z c.obj; c_max = Option.map n_of_int c.maxit;
+                      c_init = Option.map n_of_z c.init;
+                      c_cap_stack = (if c.small then Some (nat_of_int 3) else None);
+                      c_cap_expr = (if c.small then Some (nat_of_int 1) else None);
+                      c_cap_res = (if c.small then Some (nat_of_int 2) else None);
+                      c_canon = (if canon then Some (n_of_int bits) else None) } in
+    let fuel = nat_of_int (match c.maxit with Some m -> m + 2 | None -> 4000) in
+    let bs = bytes_of_ints prog in
+    let spec dbg = show_trace ~canon_bits:bits (run the_fops fuel dbg (mk true) bs answers) in
+    let faithful dbg = show_trace ~canon_bits:bits (run the_fops fuel dbg (mk false) bs answers) in
+    let shifty = has_shift_byte prog || List.exists (fun (a : answer) -> has_shift_byte (List.map int_of_byte a.a_bytes)) answers in
+    let sd = spec true and sr = spec false in
+    let cls = if shifty && (sd <> faithful true || sr <> faithful false) then "k" else "n" in
+    let case = Printf.sprintf "c07.spec e %s %s %s %s %s %s %s%s" cls (enc_toks c.e)
+        (sopt string_of_int c.maxit) (sopt Z.to_string c.init) (sopt Z.to_string c.obj) (if c.small then "s" else "h")
+        (hex_of_ints prog) (String.concat "" (List.map (fun a -> " " ^ show_ans a) answers)) in
+    emit case sd sr
+  end
 
 let () =
   register "c07.spec" ~doc:"gimli's Value operations (results reduced modulo the address size) against the specification algebra of Spec/StackSpec.v; class k = generic shift counts beyond the address size (known finding)"
@@ -602,6 +628,28 @@ let () =
           spec_eval_witness emit e ([0x08; 0x40] @ cst (Z.sub m (Z.of_int 2)) @ [0x20; sh])
                                    ([0x08; 0x40] @ cst (Z.sub m (Z.of_int 2)) @ [0x20] @ norm @ [sh]))
           [0x24; 0x25; 0x26]) [1; 2; 4];
+      (* exhaustive short programs over the alphabet after a dirty prelude (values beyond the address size on the stack) *)
+      List.iter (fun asz ->
+        if asz < 8 then begin
+          let e = { asz; f64 = false; ver = 4; be = (asz = 2) } in
+          let c = { e; maxit = Some 14; init = Some (Z.add (p2 (8 * asz)) (Z.of_int 3)); obj = None; small = false } in
+          let al = alphabet e in
+          let m = p2 (8 * asz) in
+          let pre = [0x0e] @ fixed e.be 8 (Z.add (Z.mul m (Z.of_int 5)) (Z.of_int 2)) @ [0x31; 0x1f] in   (* const8u 5M+2; lit1; neg *)
+          Array.iter (fun a -> spec_eval_case emit c (pre @ a) [];
+            Array.iter (fun b -> spec_eval_case emit c (pre @ a @ b) []) al) al
+        end) [1; 2; 4];
+      let r = mk_rng (seed + 77) in
+      for _ = 1 to n do
+        let e = pick r (Array.of_list main_encs) in
+        let prog = rand_prog r e 2 (1 + rand_int r 8) in
+        let answers = List.init (rand_int r 8) (fun _ -> rand_answer r e 2) in
+        let c = { e; maxit = Some (rand_int r 40);
+                  init = (if rand_int r 3 = 0 then Some (rand_u r) else None);
+                  obj = (if rand_int r 3 = 0 then Some (rand_u r) else None);
+                  small = rand_int r 5 = 0 } in
+        spec_eval_case emit c prog answers
+      done;
       let r = mk_rng seed in
       for _ = 1 to n do
         let sz = pick r [| 1; 2; 4; 8 |] in
